@@ -30,13 +30,31 @@ def copy_repo(dst):
 
 
 def apply_edits(root, edits):
-    for path, old, new in edits:
-        p = os.path.join(root, path)
-        s = open(p).read()
-        n = s.count(old)
-        if n != 1:
-            raise RuntimeError("edit anchor occurs %d times in %s: %r" % (n, path, old[:60]))
-        open(p, "w").write(s.replace(old, new))
+    import re
+    for e in edits:
+        path, old, new = e[0], e[1], e[2]
+        mode = e[3] if len(e) > 3 else "once"
+        paths = [path]
+        if path == "*":
+            paths = []
+            for dp, dn, fn in os.walk(os.path.join(root, "src")):
+                paths += [os.path.relpath(os.path.join(dp, f), root) for f in fn if f.endswith(".rs")]
+        total = 0
+        for pth in paths:
+            p = os.path.join(root, pth)
+            s = open(p).read()
+            if mode == "word":
+                s2, n = re.subn(r"\b%s\b" % re.escape(old), new, s)
+            else:
+                n = s.count(old)
+                s2 = s.replace(old, new)
+            if mode == "once" and n != 1:
+                raise RuntimeError("edit anchor occurs %d times in %s: %r" % (n, pth, old[:60]))
+            total += n
+            if n:
+                open(p, "w").write(s2)
+        if total == 0:
+            raise RuntimeError("edit anchor occurs 0 times: %r" % old[:60])
 
 
 def run_one(spec, slot_dir, tier="quick"):
